@@ -400,8 +400,19 @@ def _goertzel(pending, entry, ivar, count, entry_names):
                 c = n1.subst({e1: X.const(1), e2: X.const(0)}) - v
                 d = n1.subst({e1: X.const(0), e2: X.const(1)}) - v
                 lin = v + c * X.var(e1) + d * X.var(e2)
-                if not lin.eq(n1): continue
+                if not lin.eq(n1):
+                    if STRICT_RECURRENCES[0] and e1 in n1.fv():
+                        # inside a statistics kernel a state pair whose second member is the delayed first one is a Goertzel filter: its update must be
+                        # the linear form x[n] + c*s1 - s2
+                        why = (f"the state pair ({s1}, {s2}) is a delay line ({s2}' = {s1}) but the update of {s1} is not linear in the two state variables: "
+                               "it is not the second-order Goertzel recurrence x[n] + 2cos(w)*s1 - s2")
+                        return {s1: Mismatch(why), s2: Mismatch(why)}
+                    continue
             except Unknown:
+                if STRICT_RECURRENCES[0] and two is None and e1 in n1.fv():
+                    why = (f"the state pair ({s1}, {s2}) is a delay line ({s2}' = {s1}) but the update of {s1} is not a polynomial of degree one in the state "
+                           "(a state variable is divided by / raised to a power): it is not the second-order Goertzel recurrence x[n] + 2cos(w)*s1 - s2")
+                    return {s1: Mismatch(why), s2: Mismatch(why)}
                 continue
             if (v.fv() | c.fv() | d.fv()) & entry_names:
                 foreign = sorted(nm for nm, (en, _) in entry.items() if en in (v.fv() | c.fv() | d.fv()) and nm not in (s1, s2))
